@@ -456,10 +456,10 @@ fn short_string(mut index: u64, len: usize) -> Vec<u8> {
 }
 
 fn run_short_strings(ctx: &mut Ctx, rep: &mut Report, ck: &mut Checker, base: &mut u64) {
-    let maxlen = if ctx.quick() { 4 } else { 5 };
+    let maxlen = if ctx.quick() { 4 } else { 6 };
     rep.space(
         "short_strings",
-        "7 readers x ALL byte strings of length 0..=4 (thorough 0..=5) over the 12-symbol alphabet {LF, space, tab, '>', '/', ':', '0', 'A', 'P', 'V', '[', 0xFF} (the empty input included) \
+        "7 readers x ALL byte strings of length 0..=4 (thorough 0..=6) over the 12-symbol alphabet {LF, space, tab, '>', '/', ':', '0', 'A', 'P', 'V', '[', 0xFF} (the empty input included) \
          x chunkings {whole, 1-byte chunks, one cut in the middle}; oracle: Reader::new, every next() up to the first Err/None, 2 further calls after an error and 1 after end of input all return without panic; \
          the scripted stream is asked for data at most 10*(len+10) times (else hang); at most len+2 records before Err/None (else livelock); non-trivial = all",
     );
@@ -474,6 +474,7 @@ fn run_short_strings(ctx: &mut Ctx, rep: &mut Report, ck: &mut Checker, base: &m
                 *base += 1;
                 if ctx.mine(idx) {
                     watch::beat(15, ri as u64, len as u64, start);
+                    ctx.crumb(|| format!("C15 short_strings reader={} len={} start={}", fmt.name(), len, start));
                     for s in start..end {
                         let data = short_string(s, len);
                         let origin = Origin { base: "-".into(), fault: "short-string", detail: format!("index {} of length {}", s, len) };
@@ -519,6 +520,7 @@ fn run_short_lines(ctx: &mut Ctx, rep: &mut Report, ck: &mut Checker, base: &mut
                 *base += 1;
                 if ctx.mine(idx) {
                     watch::beat(15, ri as u64, 300 + nl as u64, start);
+                    ctx.crumb(|| format!("C15 short_lines reader={} lines={} start={}", fmt.name(), nl, start));
                     for s in start..end {
                         let mut x = s;
                         let mut picks = vec![0usize; nl];
@@ -566,6 +568,7 @@ fn run_structural(ctx: &mut Ctx, rep: &mut Report, ck: &mut Checker, base: &mut 
                 continue;
             }
             watch::beat(15, *ri as u64, 100, vi as u64);
+            ctx.crumb(|| format!("C15 structural base={} variant={} {} {}", b.name, vi, fault, detail));
             let origin = Origin { base: b.name.clone(), fault, detail: detail.clone() };
             if *fault == "last-token-dropped (ragged)" {
                 rep.sample_space(2, || json!({"base": b.name, "fault": fault, "detail": detail, "text": lossy(bytes)}));
@@ -595,6 +598,7 @@ fn run_mutations(ctx: &mut Ctx, rep: &mut Report, ck: &mut Checker, base: &mut u
                     continue;
                 }
                 watch::beat(15, *ri as u64, kind as u64, p as u64);
+                ctx.crumb(|| format!("C15 {} base={} kind={} (0 prefix,1 delete,2 substitute,3 insert) pos={}", space, b.name, kind, p));
                 rep.space(space, "");
                 match kind {
                     0 => {
@@ -647,6 +651,7 @@ fn run_pairs(ctx: &mut Ctx, rep: &mut Report, ck: &mut Checker, base: &mut u64, 
                 continue;
             }
             watch::beat(15, *ri as u64, 200, p as u64);
+            ctx.crumb(|| format!("C15 two_faults base={} first position={}", b.name, p));
             for &q in &pos[pi + 1..] {
                 for fq in PAIR_FAULTS {
                     for fp in PAIR_FAULTS {
